@@ -57,6 +57,10 @@ const (
 	kConst  // untyped integer constant
 	kAny    // interface value: Go.Any
 	kBucket // diskstore.Bucket: the key-value model Base/KV.lean
+	kErrOpt // a named error result: Option String (none = nil)
+	kOpaque // a type of spec.Opaque: a Lean type parameter; values are only passed on
+	kOrd    // float32 under spec.FloatAbs: a Lean type parameter with a decidable `<` (only < and > are translated)
+	kOpt    // *float32 under spec.FloatAbs: Option (nil = none); made by &v of a variable assigned once, read by *p
 )
 
 type xty struct {
@@ -68,6 +72,7 @@ type xty struct {
 	params  []*xty
 	results []*xty // kErr last when the function can fail
 	oracle  bool
+	targs   []string // struct: its Lean type parameters beside α (spec.Opaque / spec.FloatAbs names its fields mention)
 }
 
 var (
@@ -82,6 +87,7 @@ var (
 	tCon    = &xty{k: kConst}
 	tAny    = &xty{k: kAny}
 	tBucket = &xty{k: kBucket}
+	tErrOpt = &xty{k: kErrOpt}
 )
 
 func listOf(e *xty) *xty { return &xty{k: kList, elem: e} }
@@ -91,11 +97,11 @@ func sameTy(a, b *xty) bool {
 		return false
 	}
 	switch a.k {
-	case kList:
+	case kList, kOpt:
 		return sameTy(a.elem, b.elem)
 	case kMap:
 		return sameTy(a.key, b.key) && sameTy(a.elem, b.elem)
-	case kStruct:
+	case kStruct, kOpaque, kOrd:
 		return a.name == b.name
 	case kFunc:
 		if len(a.params) != len(b.params) || len(a.results) != len(b.results) {
@@ -131,6 +137,29 @@ func (t *xty) mentionsAny() bool {
 		}
 	}
 	return false
+}
+
+// the type parameters (spec.Opaque / spec.FloatAbs names) a type mentions
+func (t *xty) tvars(acc map[string]bool) {
+	if t == nil {
+		return
+	}
+	switch t.k {
+	case kOpaque, kOrd:
+		acc[t.name] = true
+	case kStruct:
+		for _, a := range t.targs {
+			acc[a] = true
+		}
+	}
+	t.elem.tvars(acc)
+	t.key.tvars(acc)
+	for _, p := range t.params {
+		p.tvars(acc)
+	}
+	for _, p := range t.results {
+		p.tvars(acc)
+	}
 }
 
 func parenT(s string) string {
@@ -185,6 +214,12 @@ func (t *xty) lean() string {
 		return "Go.Any α"
 	case kBucket:
 		return "KV"
+	case kErrOpt:
+		return "Option String"
+	case kOpaque, kOrd:
+		return t.name
+	case kOpt:
+		return "Option " + parenT(t.elem.lean())
 	case kList:
 		if t.elem.k == kByte {
 			return "Bytes"
@@ -200,10 +235,14 @@ func (t *xty) lean() string {
 		}
 		return "List (" + k + " × " + v + ")"
 	case kStruct:
+		s := t.name
 		if t.poly {
-			return t.name + " α"
+			s += " α"
 		}
-		return t.name
+		for _, a := range t.targs {
+			s += " " + a
+		}
+		return s
 	case kFunc:
 		var ps []string
 		if t.oracle {
@@ -228,6 +267,8 @@ type structSpec struct {
 	File string   // path relative to the repository
 	Name string   // Go type name
 	Only []string // if set: the fields that are modelled (any other field access is an error)
+	Caps []string // slice fields whose capacity is read (`cap(s.f)`): each gets the ghost field f_cap : Int
+	Drop []string // fields that are not modelled although literals set them: their (call-free) initialisers are not translated
 }
 
 type xfield struct {
@@ -236,9 +277,44 @@ type xfield struct {
 }
 
 type xstruct struct {
-	name   string
-	fields []xfield
-	poly   bool // a field mentions `any`: the structure has the type parameter α
+	name    string
+	fields  []xfield
+	poly    bool            // a field mentions `any`: the structure has the type parameter α
+	tparams []string        // further type parameters (spec.Opaque / spec.FloatAbs names the fields mention)
+	caps    map[string]bool // fields with a ghost capacity field
+	drop    map[string]bool // fields left out although literals set them (structSpec.Drop)
+}
+
+func (x *xtr) structTy(name string) *xty {
+	st := x.structs[name]
+	return &xty{k: kStruct, name: name, poly: st.poly, targs: st.tparams}
+}
+
+// binder text for type parameters: {α A B : Type} [Inhabited A] … [LT D] [DecidableRel (α := D) (· < ·)]
+func (x *xtr) typeBinders(alpha bool, names []string, inhabited bool) string {
+	var ps []string
+	if alpha {
+		ps = append(ps, "α")
+	}
+	ps = append(ps, names...)
+	if len(ps) == 0 {
+		return ""
+	}
+	s := "{" + strings.Join(ps, " ") + " : Type} "
+	for _, n := range names {
+		if inhabited || x.ordParams[n] {
+			s += "[Inhabited " + n + "] "
+		}
+	}
+	for _, n := range names {
+		if x.ordParams[n] {
+			s += "[LT " + n + "] [DecidableRel (α := " + n + ") (· < ·)] "
+			if x.sp.FloatLE {
+				s += "[LE " + n + "] [DecidableRel (α := " + n + ") (· ≤ ·)] "
+			}
+		}
+	}
+	return s
 }
 
 func (s *xstruct) field(n string) *xty {
@@ -315,6 +391,36 @@ type xtr struct {
 	poly           bool                   // the function mentions `any`: it gets the type parameter α
 	usesKV         bool                   // the function has a diskstore.Bucket: the module imports Base/KV.lean
 	uses           map[string]useSpec     // functions translated into other modules that this one calls
+	namedRes       []string               // named results: local variables, returned as a plain tuple (error: Option String)
+	opaque         map[string]string      // spec.Opaque: Go type text -> Lean type parameter
+	tparams        []string               // the Lean type parameters of spec.Opaque, in order
+	usesRtX        bool                   // a primitive of Base/GoRtX.lean is used: the module imports it
+	ordParams      map[string]bool        // type parameters that stand for float32 (spec.FloatAbs)
+	inhabited      bool                   // the zero value of a type parameter is needed: [Inhabited _] binders
+	methods        map[string]*xmethod    // spec.Methods: "LeanType.Method" -> abstract method of an opaque type
+	capVars        map[string]string      // spec.CapVars: slice variable -> the Int variable that holds its capacity
+	fnBody         *ast.BlockStmt         // the body being translated (for whole-function checks)
+}
+
+// a method of an opaque (interface) type, kept abstract: the parameter <Type>_<Method> of the translated
+// function; a mutating method takes the receiver's state and returns (result, new state)
+type xmethod struct {
+	lean string
+	ft   *xty
+	mut  bool
+	recv string
+}
+
+func (m *xmethod) leanType() string {
+	ps := []string{m.recv}
+	for _, p := range m.ft.params {
+		ps = append(ps, parenT(p.lean()))
+	}
+	r := resLean(m.ft.results)
+	if m.mut {
+		r = parenT(r) + " × " + m.recv
+	}
+	return strings.Join(ps, " → ") + " → " + r
 }
 
 func (x *xtr) pos(n ast.Node) token.Position {
@@ -328,7 +434,7 @@ func (x *xtr) bad(n ast.Node, format string, a ...any) {
 	fail(x.pos(n), format, a...)
 }
 
-var reservedNames = map[string]bool{"fuel": true, "rest_": true, "i_": true, "r_": true}
+var reservedNames = map[string]bool{"fuel": true, "rest_": true, "i_": true, "r_": true, "e_": true, "c_": true, "s_": true, "v_": true, "growCap": true}
 
 func (x *xtr) declare(n ast.Node, name string, ty *xty) {
 	if name == "_" {
@@ -384,6 +490,9 @@ func (x *xtr) tupleType(names []string) string {
 // types
 
 func (x *xtr) goTy(e ast.Expr) *xty {
+	if n, ok := x.opaque[exprText(e)]; ok {
+		return &xty{k: kOpaque, name: n}
+	}
 	switch t := e.(type) {
 	case *ast.Ident:
 		switch t.Name {
@@ -401,9 +510,13 @@ func (x *xtr) goTy(e ast.Expr) *xty {
 			return tErr
 		case "any":
 			return tAny
+		case "float32":
+			if x.sp.FloatAbs != "" {
+				return &xty{k: kOrd, name: x.sp.FloatAbs}
+			}
 		}
-		if st, ok := x.structs[t.Name]; ok {
-			return &xty{k: kStruct, name: t.Name, poly: st.poly}
+		if _, ok := x.structs[t.Name]; ok {
+			return x.structTy(t.Name)
 		}
 		if a, ok := x.aliases[t.Name]; ok {
 			return a
@@ -414,6 +527,10 @@ func (x *xtr) goTy(e ast.Expr) *xty {
 		}
 	case *ast.ArrayType:
 		return listOf(x.goTy(t.Elt))
+	case *ast.Ellipsis: // a variadic parameter: the slice of its arguments
+		if t.Elt != nil {
+			return listOf(x.goTy(t.Elt))
+		}
 	case *ast.MapType:
 		k := x.goTy(t.Key)
 		if k.k != kStr && k.k != kInt && k.k != kU64 {
@@ -422,8 +539,11 @@ func (x *xtr) goTy(e ast.Expr) *xty {
 		return &xty{k: kMap, key: k, elem: x.goTy(t.Value)}
 	case *ast.StarExpr:
 		if id, ok := t.X.(*ast.Ident); ok {
-			if st, ok := x.structs[id.Name]; ok {
-				return &xty{k: kStruct, name: id.Name, poly: st.poly}
+			if _, ok := x.structs[id.Name]; ok {
+				return x.structTy(id.Name)
+			}
+			if id.Name == "float32" && x.sp.FloatAbs != "" {
+				return &xty{k: kOpt, elem: x.goTy(t.X)}
 			}
 		}
 	case *ast.SelectorExpr:
@@ -435,8 +555,8 @@ func (x *xtr) goTy(e ast.Expr) *xty {
 				x.usesKV = true
 				return tBucket
 			}
-			if st, ok := x.structs[t.Sel.Name]; ok { // pkg.Struct named in the spec
-				return &xty{k: kStruct, name: t.Sel.Name, poly: st.poly}
+			if _, ok := x.structs[t.Sel.Name]; ok { // pkg.Struct named in the spec
+				return x.structTy(t.Sel.Name)
 			}
 			if a, ok := x.aliases[t.Sel.Name]; ok {
 				return a
@@ -487,6 +607,8 @@ func exprText(e ast.Expr) string {
 		return "*" + exprText(t.X)
 	case *ast.ArrayType:
 		return "[]" + exprText(t.Elt)
+	case *ast.Ellipsis:
+		return "..." + exprText(t.Elt)
 	}
 	return fmt.Sprintf("%T", e)
 }
@@ -506,10 +628,21 @@ func (x *xtr) zero(n ast.Node, t *xty) string {
 		return "\"\""
 	case kList, kMap:
 		return "[]"
+	case kOpt:
+		return "none"
 	case kStruct:
 		return t.name + ".zero"
 	case kAny:
 		return "Go.Any.nil"
+	case kOpaque, kOrd:
+		// nil interface / 0.0: an abstract inhabitant (reached only through omitted literal fields and
+		// reads past the end of a slice, where Go panics)
+		x.inhabited = true
+		return "default"
+	case kFunc:
+		if len(t.results) == 1 && t.results[0].k != kErr && !t.oracle && len(t.params) > 0 {
+			return "(fun" + strings.Repeat(" _", len(t.params)) + " => " + x.zero(n, t.results[0]) + ")"
+		}
 	}
 	x.bad(n, "zero value of %s", t.lean())
 	return ""
@@ -521,13 +654,21 @@ func (x *xtr) structText(s *xstruct) genFunc {
 	if s.poly {
 		hd, ty, impl = s.name+" (α : Type)", s.name+" α", " {α : Type}"
 	}
+	if len(s.tparams) > 0 {
+		ps := s.tparams
+		if s.poly {
+			ps = append([]string{"α"}, ps...)
+		}
+		hd, ty = s.name+" ("+strings.Join(ps, " ")+" : Type)", s.name+" "+strings.Join(ps, " ")
+		impl = " " + strings.TrimSpace(x.typeBinders(s.poly, s.tparams, true))
+	}
 	fmt.Fprintf(&b, "structure %s where\n", hd)
 	var zs []string
 	for _, f := range s.fields {
 		fmt.Fprintf(&b, "  %s : %s\n", ident(f.name), f.ty.lean())
 		zs = append(zs, x.zero(nil, f.ty))
 	}
-	if !s.poly {
+	if !s.poly && len(s.tparams) == 0 {
 		b.WriteString("  deriving DecidableEq, Repr\n")
 	}
 	fmt.Fprintf(&b, "/-- the zero value of `%s` -/\ndef %s.zero%s : %s := ⟨%s⟩\n", s.name, s.name, impl, ty, strings.Join(zs, ", "))
